@@ -151,6 +151,25 @@ func (f *frame) external(n *node, callee *ssa.Function, full string, args []Val,
 		if strings.HasPrefix(name, "Set") {
 			return Val{T: rt}, true
 		}
+		// the type of a value and its kind: Kind() is the kind of Type()
+		typeOf := g.Fun("reflect:typeOf", []string{opaqueSort("reflect.Value")}, SortRef)
+		kindOf := g.Fun("reflect:kindOfType", []string{SortRef}, SortBV64)
+		tref := g.Fresh(SortRef, "("+typeOf+" "+args[0].C[0]+")")
+		switch name {
+		case "Type":
+			g.Assume(and(not(eq(tref, NilRef)), "(bvult "+tref+" "+refLit(AllocBase)+")"))
+			return Val{T: rt, C: []string{bvLit(9, 32), tref}}, true
+		case "Kind":
+			return Val{T: rt, C: []string{g.Fresh(SortBV64, "("+kindOf+" "+tref+")")}}, true
+		case "Uint":
+			fn := g.Fun("reflect:Uint", []string{opaqueSort("reflect.Value")}, SortBV64)
+			t := g.Fresh(SortBV64, "("+fn+" "+args[0].C[0]+")")
+			k := "(" + kindOf + " " + tref + ")"
+			// a value of kind Uint8/Uint16/Uint32 is below 2^8/2^16/2^32
+			g.Assume(and(implies(eq(k, bvLit(8, 64)), "(bvult "+t+" "+bvLit(1<<8, 64)+")"), implies(eq(k, bvLit(9, 64)), "(bvult "+t+" "+bvLit(1<<16, 64)+")"),
+				implies(eq(k, bvLit(10, 64)), "(bvult "+t+" "+bvLit(1<<32, 64)+")")))
+			return Val{T: rt, C: []string{t}}, true
+		}
 		rc := x.comps(rt)
 		if _, isBasic := rt.Underlying().(*types.Basic); isBasic && len(rc) == 1 && !isString(rt) {
 			var terms, sorts []string
